@@ -7,12 +7,22 @@
                                   -> process_name with a plugin hook
    {"op":"pair","a":s,"b":t}      -> per flag combination: do the outputs coincide, pair triggers
    {"op":"scope","scope":k,"snake":b,"names":[..],"fixed":[..]} -> python names of a scope, refusal
+   {"op":"calls","calls":[[k, name],..]}  -> one RUN: process_name with flag combination k on each name, in order
+   {"op":"method","snake":b,"sub":b,"ret":s,"vars":[[name, has_default],..]}
+                                  -> the method scope: parameters in `def` order, the four helper locals after
+                                     `get_variable_names`, does the `def` compile, what a call sends / returns
+                                     (or which exception), the four method triggers, `Supported_18m`
+   {"op":"class","snake":b,"root":s,"T":s,"addT":b,"env":{"objects":[[n,[iface..]]..],"abstracts":[[n,[sub..]]..],"unions":[..]},
+    "sels":[{"f":[alias|null,name]} | {"i":[cond,[..]]} | {"s":[frag,cond,[..]]} ..]}
+                                  -> the class scope: rows [py, alias, wire] in order, bases, the keys GraphQL collects
+                                     for runtime type T, the keys of class + inherited fragments, noDrop
 -/
 import AriadneModel.Driver.Wire
 import AriadneModel.Model.Names
+import AriadneModel.Model.NameScopes
 
 open Lean (Json)
-open Ariadne Ariadne.Wire Ariadne.Names
+open Ariadne Ariadne.Wire Ariadne.Names Ariadne.NameScopes
 
 def js (n : Name) : Json := Json.str (String.ofList n)
 
@@ -41,6 +51,50 @@ def hookOf (j : Json) : Except String (Name → Name) := do
   | "const" => do let s ← fieldStr j "s"; pure (fun _ => s.toList)
   | "strip" => pure (fun n => n.filter (· != '_'))
   | _ => throw s!"unknown hook {k}"
+
+
+partial def encVal : Val → Json
+  | .arg i => Json.mkObj [("arg", Json.num i)]
+  | .selfV => Json.str "self"
+  | .kwargsV => Json.str "kwargs"
+  | .text => Json.str "text"
+  | .dict ks vs => Json.mkObj [("dict", Json.arr ((ks.zip vs).map fun (k, v) => Json.arr #[js k, encVal v]).toArray)]
+  | .resp q v => Json.mkObj [("resp", Json.arr #[encVal q, encVal v])]
+  | .data r => Json.mkObj [("data", encVal r)]
+  | .parsed d => Json.mkObj [("parsed", encVal d)]
+
+def encMethodErr : MethodErr → Json
+  | .syntaxError => Json.mkObj [("err", "SyntaxError")]
+  | .nameError n => Json.mkObj [("err", "NameError"), ("name", js n)]
+  | .notCallable n => Json.mkObj [("err", "TypeError"), ("name", js n)]
+  | .noAttribute n => Json.mkObj [("err", "AttributeError"), ("name", js n)]
+
+def names? (j : Json) : Except String (List Name) := do
+  (← j.getArr?).toList.mapM fun x => do pure (← x.getStr?).toList
+
+partial def decSel (j : Json) : Except String Sel := do
+  match j.getObjVal? "f" with
+  | .ok v =>
+    let a ← v.getArr?
+    let alias := match a[0]! with | Json.str s => some s.toList | _ => none
+    pure (.field alias (← a[1]!.getStr?).toList)
+  | .error _ =>
+    match j.getObjVal? "i" with
+    | .ok v =>
+      let a ← v.getArr?
+      pure (.inline (← a[0]!.getStr?).toList (← (← a[1]!.getArr?).toList.mapM decSel))
+    | .error _ =>
+      let a ← (← j.getObjVal? "s").getArr?
+      pure (.spread (← a[0]!.getStr?).toList (← a[1]!.getStr?).toList (← (← a[2]!.getArr?).toList.mapM decSel))
+
+def decAssoc (j : Json) : Except String (List (Name × List Name)) := do
+  (← j.getArr?).toList.mapM fun x => do
+    let a ← x.getArr?
+    pure ((← a[0]!.getStr?).toList, ← names? a[1]!)
+
+def encKeys : Except ResErr (List Name) → Json
+  | .ok ks => Json.arr (ks.map js).toArray
+  | .error (.keyError t) => Json.mkObj [("err", "KeyError"), ("name", js t)]
 
 def handle (j : Json) : Except String Json := do
   let op ← fieldStr j "op"
@@ -87,6 +141,48 @@ def handle (j : Json) : Except String Json := do
     pure <| Json.mkObj [
       ("refused", Json.bool (scopeRefused fixed s names)),
       ("names", Json.arr ((scopeNames sn s names).map js).toArray)]
+  | "calls" =>
+    let calls ← (← (← field j "calls").getArr?).toList.mapM fun x => do
+      let a ← x.getArr?
+      pure (⟨cfgOf (← a[0]!.getNat?), (← a[1]!.getStr?).toList⟩ : Call)
+    pure (Json.arr ((runCalls calls).map js).toArray)
+  | "method" =>
+    let sn ← fieldBool j "snake"
+    let sub ← fieldBool j "sub"
+    let ret := (← fieldStr j "ret").toList
+    let vars ← (← (← field j "vars").getArr?).toList.mapM fun x => do
+      let a ← x.getArr?
+      pure (⟨(← a[0]!.getStr?).toList, !(← a[1]!.getBool?)⟩ : Var)
+    let L := getVariableNames (argNames sn vars)
+    let names := vars.map (·.name)
+    pure <| Json.mkObj [
+      ("params", Json.arr ((argNames sn vars).map js).toArray),
+      ("locals", Json.arr #[js L.q, js L.v, js L.r, js L.d]),
+      ("compiles", Json.bool (defCompiles sn vars)),
+      ("outcome", match runMethod sn sub ret vars with
+        | .error e => encMethodErr e
+        | .ok s => Json.mkObj [("query", encVal s.query), ("variables", encVal s.variables), ("result", encVal s.result)]),
+      ("trig", Json.arr #[Json.bool (trigSelfParam sn vars), Json.bool (trigKwargsParam sn vars),
+        Json.bool (trigQueryCapture sn vars), Json.bool (trigGlobalShadow sn ret vars)]),
+      ("scope_supported", Json.bool (
+        names.all (fun n => !trigScopeSingle sn .variable n) &&
+        names.all (fun a => names.all fun b => a == b || !trigScopeMerge sn .variable a b))),
+      ("ret_fixed", Json.bool (fixedMethodNames.contains ret))]
+  | "class" =>
+    let sn ← fieldBool j "snake"
+    let root := (← fieldStr j "root").toList
+    let T := (← fieldStr j "T").toList
+    let addT ← fieldBool j "addT"
+    let ej ← field j "env"
+    let e : TypeEnv := ⟨← decAssoc (← field ej "objects"), ← decAssoc (← field ej "abstracts"), ← names? (← field ej "unions")⟩
+    let sels ← (← (← field j "sels").getArr?).toList.mapM decSel
+    pure <| Json.mkObj [
+      ("class", match classOf sn e root addT sels with
+        | .ok out => Json.mkObj [("rows", Json.arr (out.rows.map encEmitted).toArray), ("bases", Json.arr (out.bases.map js).toArray)]
+        | .error (.keyError t) => Json.mkObj [("err", "KeyError"), ("name", js t)]),
+      ("effective", encKeys (effectiveSels e root sels)),
+      ("collect", Json.arr ((collectSels e T sels).map js).toArray),
+      ("noDrop", Json.bool (noDropSels e T root sels))]
   | _ => throw s!"unknown op {op}"
 
 def main : IO Unit := Ariadne.Wire.loop handle
